@@ -163,6 +163,19 @@ pub fn probe_image(rng: &mut Rng, iw: i32, ih: i32) -> Vec<u32> {
     v
 }
 
+/// one translation component: integers, halves, quarters and arbitrary fractions, chosen per axis so that
+/// every combination (integer x with fractional y, equal integer parts, ...) occurs
+fn axis(rng: &mut Rng, range: i64) -> f32 {
+    match rng.below(8) {
+        0 => 0.,
+        1 => rng.int(-range, range) as f32,
+        2 => rng.int(-range, range) as f32 + 0.5,
+        3 => *rng.pick(&[-0.5f32, 0.5, -0.25, 0.75, -1.75, 1.25, 0.999, -0.001]),
+        4 => rng.int(-3, 3) as f32,
+        _ => rng.range(-(range as f64), range as f64) as f32,
+    }
+}
+
 fn gen_case(rng: &mut Rng) -> ImgCase {
     let w = rng.int(2, 24) as i32;
     let h = rng.int(2, 24) as i32;
@@ -173,7 +186,7 @@ fn gen_case(rng: &mut Rng) -> ImgCase {
     let src_t = match rng.below(9) {
         0 => Transform::identity(),
         1 => Transform::translation(rng.int(-12, 12) as f32, rng.int(-12, 12) as f32),
-        2 => Transform::translation(rng.range(-12., 12.) as f32, rng.range(-12., 12.) as f32),
+        2 => Transform::translation(axis(rng, 12), axis(rng, 12)),
         3 => Transform::scale(rng.range(0.2, 3.) as f32, rng.range(0.2, 3.) as f32),
         4 => Transform::scale(-rng.range(0.5, 2.) as f32, rng.range(0.5, 2.) as f32).then_translate(euclid::vec2(rng.range(0., 8.) as f32, 0.)),
         5 => Transform::rotation(euclid::Angle::radians(rng.range(0., 6.28) as f32)).then_translate(euclid::vec2(rng.range(-4., 8.) as f32, rng.range(-4., 8.) as f32)),
@@ -184,7 +197,7 @@ fn gen_case(rng: &mut Rng) -> ImgCase {
     let ctm = match rng.below(8) {
         0 | 1 | 2 | 3 => Transform::identity(),
         4 => Transform::translation(rng.int(-6, 6) as f32, rng.int(-6, 6) as f32),
-        5 => Transform::translation(rng.range(-6., 6.) as f32, rng.range(-6., 6.) as f32),
+        5 => Transform::translation(axis(rng, 6), axis(rng, 6)),
         6 => Transform::translation(-cx, -cy).then_rotate(euclid::Angle::radians(rng.range(0., 6.28) as f32)).then_translate(euclid::vec2(cx, cy)),
         _ => Transform::translation(-cx, -cy).then_scale(rng.range(0.5, 3.) as f32, rng.range(0.5, 3.) as f32).then_translate(euclid::vec2(cx, cy)),
     };
@@ -264,8 +277,9 @@ pub fn run(ctx: &Ctx) -> Outcome {
             rh = rng.range(1., 2. * h as f64) as f32;
             dt.draw_image_with_size_at(rw, rh, x, y, &img, &o);
         } else {
-            x = rng.int(-6, w as i64) as f32;
-            y = rng.int(-6, h as i64) as f32;
+            // integer positions mostly (the statement's texel placement), but also fractional ones per axis
+            x = if rng.chance(0.7) { rng.int(-6, w as i64) as f32 } else { axis(&mut rng, 6) };
+            y = if rng.chance(0.7) { rng.int(-6, h as i64) as f32 } else { axis(&mut rng, 6) };
             rw = iw as f32;
             rh = ih as f32;
             dt.draw_image_at(x, y, &img, &o);
@@ -282,7 +296,7 @@ pub fn run(ctx: &Ctx) -> Outcome {
         if let Some(v) = res.violation {
             co.viol("C13", format!("{}: {}", if sized { "draw_image_with_size_at" } else { "draw_image_at" }, v));
         }
-        if !sized {
+        if !sized && x == x.trunc() && y == y.trunc() {
             // the statement for draw_image_at, directly
             for j in 0..ih {
                 for i2 in 0..iw {
